@@ -46,6 +46,11 @@ def verify_unit(args):
         obls, meta = ex.verify_lemma(name)
     gen_s = time.time() - t0
     out = []
+    if len(obls) > 300 and os.environ.get("PYVC_NO_FORK") != "1":
+        out = _discharge_forked(ex, obls, timeout, all_backends)
+        meta.update(gen_seconds=gen_s, assumptions=sorted(ex.assumptions), dropped_calls=sorted(ex.dropped_calls),
+                    used_contracts=sorted(ex.used_contracts))
+        return dict(unit=name, kind=kind, meta=meta, vcs=out)
     for i, ob in enumerate(obls):
         if ob.kind == "shape":
             r = dict(result="undischarged", backend=None, seconds=0.0, model=None, tried=[])
@@ -70,6 +75,62 @@ def verify_unit(args):
     return dict(unit=name, kind=kind, meta=meta, vcs=out)
 
 
+def _discharge_one(ex, i, ob, timeout, all_backends):
+    from .solve import discharge
+    if ob.kind == "shape":
+        r = dict(result="undischarged", backend=None, seconds=0.0, model=None, tried=[])
+    else:
+        r = discharge(ob, timeout, all_backends)
+        if r["result"] == "undischarged":
+            r = discharge(ob, timeout * 3, True)
+    zm = r.pop("z3model", None)
+    r["inputs"] = None
+    if zm is not None and r["result"] == "refuted":
+        from .concretize import concretize
+        try:
+            r["inputs"] = concretize(ex, zm, ob.info)
+        except Exception as e:
+            r["inputs"] = {"error": str(e)}
+    if r.get("model") and len(str(r["model"])) > 4000:
+        r["model"] = {k: v[:300] for k, v in list(r["model"].items())[:40]}
+    return dict(name=ob.name, kind=ob.kind, vc=i, line=ob.info.get("line"), path=ob.info.get("path"),
+                reason=ob.info.get("reason"), expect=ob.expect, **r)
+
+
+def _discharge_forked(ex, obls, timeout, all_backends, nproc=8):
+    """Large units: the verification conditions are discharged by forked children (each inherits the z3 terms)."""
+    import tempfile
+    chunks = [list(range(k, len(obls), nproc)) for k in range(nproc)]
+    files, pids = [], []
+    for idxs in chunks:
+        fd, path = tempfile.mkstemp(prefix="pyvc_", suffix=".json")
+        os.close(fd)
+        files.append(path)
+        pid = os.fork()
+        if pid == 0:
+            try:
+                res = [_discharge_one(ex, i, obls[i], timeout, all_backends) for i in idxs]
+                with open(path, "w") as f:
+                    json.dump(res, f, default=str)
+            finally:
+                os._exit(0)
+        pids.append(pid)
+    out = []
+    for pid, path in zip(pids, files):
+        os.waitpid(pid, 0)
+        try:
+            out += json.load(open(path))
+        except Exception:
+            pass
+        os.unlink(path)
+    done = {v["vc"] for v in out}
+    for i, ob in enumerate(obls):      # a child that died: discharge here
+        if i not in done:
+            out.append(_discharge_one(ex, i, ob, timeout, all_backends))
+    out.sort(key=lambda v: v["vc"])
+    return out
+
+
 if __name__ == "__main__":
     load_contracts()
     from . import dsl
@@ -80,7 +141,7 @@ if __name__ == "__main__":
     for kind, name in units:
         if only and only not in str(name):
             continue
-        r = verify_unit((kind, name, 10.0, False, "/repo"))
+        r = verify_unit((kind, name, 10.0, False, os.environ.get("LIQUER_REPO", "/repo")))
         print("==", kind, name, "paths", r["meta"].get("paths"), "gen %.2fs" % r["meta"]["gen_seconds"])
         for v in r["vcs"]:
             flag = "OK " if v["result"] == "discharged" else "!! "
